@@ -7,16 +7,20 @@ package plugins
 
 import (
 	"context"
+	"encoding/binary"
 	"encoding/hex"
 	"errors"
 	"fmt"
+	"github.com/hashicorp/yamux"
 	"io"
 	"net"
 	"net/rpc"
+	"reflect"
 	"strconv"
 	"strings"
 	"sync"
 	"time"
+	"unsafe"
 
 	plugin "simworld/goplugin"
 	grpctest "simworld/goplugin/test/grpc"
@@ -222,6 +226,15 @@ func (im *impl) do(op, arg string) (string, error) {
 		}
 		srv.Stop()
 		return "", nil
+	case "rawabort":
+		// "<id>:<n>": open a broker stream, write n bytes of the id, close it
+		ids, ns, _ := strings.Cut(arg, ":")
+		id64, _ := strconv.ParseUint(ids, 10, 32)
+		n, _ := strconv.Atoi(ns)
+		if im.mux == nil {
+			return "", errors.New("rawabort: net/rpc only")
+		}
+		return "", AbortStream(im.mux, uint32(id64), n)
 	case "acceptonly":
 		// take a listener for id and keep it open until the process ends
 		id64, _ := strconv.ParseUint(arg, 10, 32)
@@ -675,3 +688,28 @@ func CmdServiceDesc() *grpc.ServiceDesc { return &cmdServiceDesc }
 
 // NewGRPCCmdServer builds a command server without a broker.
 func NewGRPCCmdServer(sh *Shared) any { return &grpcCmdServer{im: &impl{sh: sh, objTag: "raw"}} }
+
+// AbortStream opens a stream on the yamux session of a net/rpc broker the way
+// MuxBroker.Dial does, writes only the first n bytes (0-3) of the 4-byte ID
+// and closes it: a peer that gives up in the middle of the negotiation. (The
+// session is an unexported field; the harness reads the pointer.)
+func AbortStream(b *plugin.MuxBroker, id uint32, n int) error {
+	f := reflect.ValueOf(b).Elem().FieldByName("session")
+	if !f.IsValid() || f.Kind() != reflect.Ptr {
+		return errors.New("AbortStream: MuxBroker has no session field")
+	}
+	sess := (*yamux.Session)(unsafe.Pointer(f.Pointer()))
+	st, err := sess.OpenStream()
+	if err != nil {
+		return err
+	}
+	var raw [4]byte
+	binary.LittleEndian.PutUint32(raw[:], id)
+	if n > 0 {
+		if _, err := st.Write(raw[:n]); err != nil {
+			st.Close()
+			return err
+		}
+	}
+	return st.Close()
+}
